@@ -61,7 +61,8 @@ struct TypeCfg {
     std::string selector, enabler;
     std::map<std::string, std::vector<Assign>> presets;   // value text or "*"
     bool ptr_init = false;
-    std::vector<std::pair<std::string, std::string>> portmap;   // (fid, name in front of # / : //)
+    struct PM { std::string first, second; int n; };
+    std::vector<PM> portmap;   // (fid, name in front of # / : //, declared array length)
     // keeps the run-time names / metadata alive
     std::vector<std::unique_ptr<ExactBuf>> bufs;
     void clear() { dflt.clear(); selector.clear(); enabler.clear(); presets.clear(); ptr_init = false; bufs.clear(); portmap.clear(); }
@@ -104,7 +105,8 @@ struct Fields {
         else if(f == "at") for(int i = 0; i < NA; ++i) at[i] = I(i) != 0;
         else if(f == "ao") for(int i = 0; i < NA; ++i) ao[i] = I(i);
     }
-    std::string show(const std::string &f) const {
+    // n: number of array elements shown (the declared length)
+    std::string show(const std::string &f, int n = NA) const {
         std::ostringstream o;
         auto cs = [](const char *s, size_t cap) { size_t n = strnlen(s, cap); return hex(s, n); };
         if(f == "c0") o << (int)c0; else if(f == "c1") o << (int)c1;
@@ -113,10 +115,10 @@ struct Fields {
         else if(f == "t0") o << (int)t0; else if(f == "t1") o << (int)t1;
         else if(f == "o0") o << o0; else if(f == "o1") o << o1;
         else if(f == "s0") o << cs(s0, sizeof s0); else if(f == "s1") o << cs(s1, sizeof s1);
-        else if(f == "ai") for(int i = 0; i < NA; ++i) o << (i ? ":" : "") << (int)ai[i];
-        else if(f == "af") for(int i = 0; i < NA; ++i) o << (i ? ":" : "") << bits_of_f(af[i]);
-        else if(f == "at") for(int i = 0; i < NA; ++i) o << (i ? ":" : "") << (int)at[i];
-        else if(f == "ao") for(int i = 0; i < NA; ++i) o << (i ? ":" : "") << ao[i];
+        else if(f == "ai") for(int i = 0; i < n; ++i) o << (i ? ":" : "") << (int)ai[i];
+        else if(f == "af") for(int i = 0; i < n; ++i) o << (i ? ":" : "") << bits_of_f(af[i]);
+        else if(f == "at") for(int i = 0; i < n; ++i) o << (i ? ":" : "") << (int)at[i];
+        else if(f == "ao") for(int i = 0; i < n; ++i) o << (i ? ":" : "") << ao[i];
         return o.str();
     }
 };
